@@ -123,6 +123,10 @@ def check_src(rep, prog):
               "SRC.parse can return something else on failure: %s" % [repr(x)[:80] for x in leaves])
     # hexwords argument construction and the '' / 'null' filter in toJSON
     I2, st2, out2, sec = run_section(prog, "PS", {"sid": 0x5053, "name": "Primary SRC"})
+    # the parser gets THIS section's words: nothing it is handed may come from state shared between SRC objects
+    from .c19 import shared_write_problems
+    for e_, why in shared_write_problems(I2):
+        rep.fail("C18.R2.arguments", e_.func, e_.node, why, node=e_.node)
     pc = [e for e in I2.events if e.kind == "call" and e.data[0] == SRCQ + "SRC.parse"]
     okh = len(pc) == 1
     if okh:
